@@ -70,7 +70,10 @@ RULE = ("exhaustive: every list of <= N children over all valid (min<=preferred<
         "windows' regions, explicit min..max of windows / sized splits / int paddings checked against the drawn sizes; "
         "sessions on ONE HSplit/VSplit object (children with callable dimensions, a third of them behind "
         "ConditionalContainers whose filters toggle) divided/rendered 2-4 times while requirements, children list, "
-        "available size (mostly unchanged) and align change; 9 huge-weight cases (10^6..10^12) run on the real code "
+        "available size (mostly unchanged) and align change; a third of the sessions (and an exhaustive two-children "
+        "family) edit the SAME children list object in place (swap, reverse, replace an entry) and draw every render: "
+        "the oracle then requires the drawn windows to be the CURRENT children in their CURRENT order, each within "
+        "its current min..max; 9 huge-weight cases (10^6..10^12) run on the real code "
         "under an iteration budget; a case is non-trivial when at least one division has to grow a child")
 EXHAUSTIVE = True
 EXHAUSTIVE_SCOPE = {
@@ -467,7 +470,12 @@ class Session:
         self.hidden = set(call.get("hidden") or [])
         for wid, spec in call["children"]:
             self.cur[wid] = mkD(spec)
-        self.split.children = [self.window(wid) for wid, _ in call["children"]]
+        new = [self.window(wid) for wid, _ in call["children"]]
+        if call.get("inplace") and len(new) == len(self.split.children):
+            # the SAME list object is edited in place (swap / reverse / replace an entry)
+            self.split.children[:] = new
+        else:
+            self.split.children = new
         self.split.align = (VALIGN if self.dir == "h" else HALIGN)[call["align"]]
         return {"dir": self.dir, "done": call["done"], "wp": call.get("wp")}
 
@@ -908,6 +916,60 @@ def check_layout(name, split, case, vis):
     return v
 
 
+def check_current(name, ses, call, vis):
+    """C12 for one render of a session, in terms of the children that are in `split.children` NOW:
+    every session window that was drawn is a current (and not hidden) child, the drawn children
+    stand in their CURRENT listed order without overlap, each is sized within its own CURRENT
+    min..max, and a current child that needs room is not left out.  Windows are identified by the
+    id under which the session created them - independent of `_all_children`."""
+    v = []
+    horiz = ses.dir == "h"
+    x, y, w, h = call["wp"]
+    split = ses.split
+
+    def unwrap(c):
+        while isinstance(c, ConditionalContainer):
+            c = c.content
+        return c
+
+    def bad(cond, msg):
+        v.append({"signature": f"{name} | {cond}", "msg": msg})
+
+    tag = {unwrap(win): wid for wid, win in ses.wins.items()}
+    hidden = set(call.get("hidden") or [])
+    current = [wid for wid, _ in call["children"]]
+    specs = {wid: sp for wid, sp in call["children"]}
+    drawn = [(tag[win], wp) for win, wp in vis.items() if win in tag]
+    ctx = (f"children now {current} (hidden {sorted(hidden)}), drawn "
+           f"{[(wid, wp.xpos, wp.ypos, wp.width, wp.height) for wid, wp in drawn]}, region {call['wp']}")
+    for wid, _wp in drawn:
+        if wid not in current or wid in hidden:
+            bad("a window that is not a current child was drawn", f"window {wid}: {ctx}")
+            return v
+    order = [wid for wid, _ in drawn]
+    if order != [wid for wid in current if wid in order]:
+        bad("children not drawn in their current listed order", ctx)
+        return v
+    pos = None
+    for wid, wp in drawn:
+        start, size = (wp.ypos, wp.height) if horiz else (wp.xpos, wp.width)
+        if pos is not None and start < pos:
+            bad("children not drawn in their current listed order", f"window {wid} starts at {start} < {pos}: {ctx}")
+            return v
+        pos = start + size
+        mn, mx = specs[wid][0] or 0, specs[wid][1]
+        if size < mn or (mx is not None and size > mx):
+            bad("child sized outside its current min..max",
+                f"window {wid} with Dimension(min={specs[wid][0]}, max={mx}) got {size}: {ctx}")
+            return v
+    if split.window_too_small not in vis and w > 0 and h > 0:
+        for wid in current:
+            if wid not in hidden and (specs[wid][0] or 0) > 0 and wid not in order:
+                bad("a current child is not drawn", f"window {wid} with min {specs[wid][0]}: {ctx}")
+                return v
+    return v
+
+
 def check_specs(vis):
     """C12 in terms of the USER's explicit dimensions: a window that is a direct child of a split
     which was given a visible region and is not 'too small' gets, along the axis of that split, a
@@ -1044,6 +1106,7 @@ def oracle(case):
                     r, vis = draw(ses.split, pc)
                     if r[0] == "ok":
                         found += check_layout(wname, ses.split, pc, vis)
+                        found += check_current(wname, ses, c, vis)
                     else:
                         found.append({"signature": f"{wname} | {'does not terminate' if r[0] == 'hang' else 'raises ' + str(r[1])}",
                                       "msg": str(case)})
@@ -1246,18 +1309,45 @@ def cases(tier, rng):
             d = "hv"[(mid.index(a) + mid.index(b)) % 2]
             yield {"kind": "reuse", "dir": d, "calls": [
                 {"align": 3, "pad": 0, "children": [[1, x]], "avail": 2, "done": 0} for x in (a, b, a)]}
+    #     exhaustive: two children, then the SAME list object edited in place (swapped; first child
+    #     replaced by a new window), same available size, every render drawn
+    for i, a in enumerate(tiny):
+        for j, b in enumerate(tiny):
+            d = "hv"[(i + j) % 2]
+            c3 = tiny[(i * 7 + j * 3 + 1) % len(tiny)]
+            wp = [1, 2, 4, 3] if d == "h" else [1, 2, 3, 4]
+            mk = lambda kids, inplace: {"align": 3, "pad": 0, "children": kids, "hidden": [], "avail": 3,  # noqa: E731
+                                        "done": 0, "inplace": inplace, "wp": wp}
+            yield {"kind": "reuse", "dir": d, "cond": 0, "calls": [
+                mk([[1, a], [2, b]], 0), mk([[2, b], [1, a]], 1), mk([[3, c3], [1, a]], 1), mk([[1, a], [3, c3]], 1)]}
     for _ in range(2500 if quick else 30000):
         d = rng.choice("hv")
         al = rng.randrange(4)
         pad = rand_pad(rng)
         ids = [1, 2, 3]
         chosen = ids[:rng.choice([1, 2, 2, 3])]
+        inplace_session = rng.randrange(3) == 0   # the children list object is edited in place
         avail = rng.choice([0, 3, 6, 10, 20, rng.randrange(0, 40)])
         calls = []
         cond = rng.randrange(3) == 0   # children are ConditionalContainers that come and go
         for _c in range(rng.choice([2, 3, 4])):
             r = rng.randrange(10)
-            if r == 0:      # edit the children list (object identities change -> _children_cache miss)
+            inplace = 0
+            if inplace_session and _c and chosen:
+                # in-place edit of equal length: swap two entries / reverse / replace one entry
+                e = rng.randrange(4)
+                chosen = list(chosen)
+                if e == 0 and len(chosen) >= 2:
+                    i, j = rng.sample(range(len(chosen)), 2)
+                    chosen[i], chosen[j] = chosen[j], chosen[i]
+                    inplace = 1
+                elif e == 1 and len(chosen) >= 2:
+                    chosen.reverse()
+                    inplace = 1
+                elif e == 2:
+                    chosen[rng.randrange(len(chosen))] = rng.choice([i for i in (1, 2, 3, 4, 5) if i not in chosen])
+                    inplace = 1
+            if r == 0 and not inplace:      # edit the children list (object identities change -> _children_cache miss)
                 chosen = rng.sample(ids, rng.choice([0, 1, 2, 3]))
             if r == 1:      # a different available size
                 avail = rng.randrange(0, 40)
@@ -1267,9 +1357,11 @@ def cases(tier, rng):
             a = avail
             calls.append({"align": al, "pad": pad, "children": [[i, rand_spec(rng, big)] for i in chosen],
                           "hidden": [i for i in chosen if cond and rng.randrange(3) == 0],
+                          "inplace": inplace,
                           "avail": a, "done": 1 if (d == "h" and rng.randrange(6) == 0) else 0,
                           "wp": [rng.randrange(3), rng.randrange(3), a if d == "v" else rng.randrange(0, 5),
-                                 a if d == "h" else rng.randrange(0, 5)] if rng.randrange(3) == 0 else None})
+                                 a if d == "h" else rng.randrange(0, 5)]
+                          if (inplace_session or rng.randrange(3) == 0) else None})
         yield {"kind": "reuse", "dir": d, "cond": int(cond), "calls": calls}
     # --- nested containers (random trees of depth <= 3, <= 3 children per split)
     for _ in range(1500 if quick else 20000):
